@@ -88,6 +88,13 @@ class Domain:
 class RLX(Domain):
     name = "RLX"
 
+    def __init__(self, axioms=False):
+        super().__init__()
+        self.axioms = axioms      # add pairwise monotonicity of rounding (needed for exact-equality specs)
+        self.rounded = []
+        self.representable = []
+        self.divs = []
+
     def const_int(self, c): return V("int", z3.IntVal(int(c)))
 
     def const_float(self, c):
@@ -95,16 +102,23 @@ class RLX(Domain):
         return V("float", z3.RealVal(f"{f.numerator}/{f.denominator}"))
 
     def int_var(self, name): return V("int", z3.Int(name))
-    def float_var(self, name): return V("float", z3.Real(name))
+
+    def float_var(self, name):
+        v = V("float", z3.Real(name))
+        self.representable.append(v.t)
+        return v
 
     def to_float(self, v):
         if v.kind == "float":
             return v
         if v.kind == "int":
-            return V("float", z3.ToReal(v.t))      # exact for |i| < 2^53 (asserted by callers)
+            t = z3.ToReal(v.t)                     # exact for |i| < 2^53 (asserted by callers)
+            if self.axioms and not any(t.eq(x) for x in self.representable):
+                self.representable.append(t)
+            return V("float", t)
         raise Unsupported("bool to float")
 
-    def _round(self, key, exact):
+    def _round(self, key, exact, divinfo=None):
         """fresh r with |r - exact| <= u*|exact|; memoised on the operation key."""
         if key in self.memo:
             return self.memo[key]
@@ -113,6 +127,22 @@ class RLX(Domain):
         self.side.append(z3.If(exact >= 0,
                                z3.And(exact * (1 - u) <= r, r <= exact * (1 + u)),
                                z3.And(exact * (1 + u) <= r, r <= exact * (1 - u))))
+        # rounding is a monotone function of the exact result (hence also deterministic):
+        # x1 <= x2  =>  fl(x1) <= fl(x2).  Stated for pairs of divisions by the same positive
+        # constant (comparing numerators keeps the constraints linear) and against representable
+        # values (float inputs, converted ints), which are fixed points of rounding.
+        if self.axioms:
+            if divinfo is not None:
+                num, den = divinfo
+                for (n2, d2, r2) in self.divs:
+                    if d2 == den:
+                        self.side.append(z3.Implies(num <= n2, r <= r2))
+                        self.side.append(z3.Implies(n2 <= num, r2 <= r))
+                self.divs.append((num, den, r))
+            for v in self.representable:
+                self.side.append(z3.Implies(exact <= v, r <= v))
+                self.side.append(z3.Implies(v <= exact, v <= r))
+        self.rounded.append((exact, r))
         self.memo[key] = r
         return r
 
@@ -136,9 +166,14 @@ class RLX(Domain):
             exact = fa.t / fb.t
         else:
             raise Unsupported(f"float op {op}")
+        divinfo = None
+        if op == "/":
+            den = z3.simplify(fb.t)
+            if z3.is_rational_value(den) and den.numerator_as_long() > 0:
+                divinfo = (fa.t, den.sexpr())
         exact = z3.simplify(exact)
         key = (op, fa.t.sexpr(), fb.t.sexpr())
-        return V("float", self._round(key, exact))
+        return V("float", self._round(key, exact, divinfo))
 
     def neg(self, a):
         a = self.lift(a)
@@ -474,6 +509,50 @@ def exec_block(stmts, fr, guard):
         else:
             raise Unsupported(f"statement {type(st).__name__}")
     return guard
+
+
+def exec_paths(stmts, env, guards=None):
+    """Path-wise execution of Assign / AugAssign / If statements: returns [(guards, names)],
+    one entry per control-flow path (no merging with ite, so identical float operations on a
+    path are recognised as identical)."""
+    d = env.dom
+    guards = list(guards or [])
+    names = dict(env.names)
+    work = [(guards, names, 0)]
+    done = []
+    while work:
+        g, nm, i = work.pop()
+        e = Env(d, nm, env.funcs, env.consts)
+        while i < len(stmts):
+            st = stmts[i]
+            if isinstance(st, ast.Assign):
+                key = dotted(st.targets[0])
+                if key is None or len(st.targets) != 1:
+                    raise Unsupported("assign target")
+                e.names[key] = ev(st.value, e)
+            elif isinstance(st, ast.AugAssign):
+                key = dotted(st.target)
+                op = _BINOP.get(type(st.op))
+                if key is None or op is None or key not in e.names:
+                    raise Unsupported("augassign")
+                e.names[key] = d.arith(op, d.lift(e.names[key]), ev(st.value, e))
+            elif isinstance(st, ast.If):
+                c = ev(st.test, e)
+                rest = stmts[i + 1:]
+                out = []
+                for (cond, body) in ((c.t, st.body), (z3.Not(c.t), st.orelse)):
+                    sub = exec_paths(list(body) + list(rest), Env(d, dict(e.names), env.funcs, env.consts), g + [cond])
+                    out.extend(sub)
+                done.extend(out)
+                break
+            elif isinstance(st, (ast.Pass, ast.Assert)) or (isinstance(st, ast.Expr) and isinstance(st.value, ast.Constant)):
+                pass
+            else:
+                raise Unsupported(f"statement {type(st).__name__}")
+            i += 1
+        else:
+            done.append((g, e.names))
+    return done
 
 
 def exec_stmts(stmts, env):
